@@ -631,7 +631,7 @@ func (r *Runner) cmd(ctx context.Context, cm syntax.Command) {
 			if y.Init != nil {
 				r.arithm(y.Init)
 			}
-			for y.Cond == nil || r.arithm(y.Cond) != 0 {
+			for !r.stop(ctx) && (y.Cond == nil || r.arithm(y.Cond) != 0) {
 				if !r.exit.ok() || r.loopStmtsBroken(ctx, cm.Do) {
 					break
 				}
